@@ -37,6 +37,7 @@ TEXT = ('every operator of every convex-family class transforms (sign, multiplie
         'non-convex side and otherwise encodes lhs - rhs <= 0; bilinear products raise')
 P = {'props': ['C10']}
 
+SAMPLE_CASES = []
 LIN0, CONST0 = 0.3, 0.7          # the affine "other" operand  a(x) = 0.3 x + 0.7
 OUT0 = 0.37
 MULT0 = 1.7
@@ -218,6 +219,8 @@ def run(repo):
                     seq = [(op1, v1)] + ([second] if second else [])
                     desc = '%s%s sign=%+d %s' % (cname, '/' + letter if letter else '', sign,
                                                  ' then '.join(_opname(o, v) for o, v in seq))
+                    if len(SAMPLE_CASES) < 6 and second is not None and n_checks % 97 == 0:
+                        SAMPLE_CASES.append(front + ': ' + desc + ' ; then every comparison spelling')
                     try:
                         for op, v in seq:
                             method = '__%s__' % op
@@ -252,7 +255,7 @@ def run(repo):
                                   'PiecewiseConvex', 'ExpPiecewiseConvex'],
                       'domain': 'sign {-1,+1} (0 via *0) x 15 operations x chains of 2 x 5 comparison '
                                 'spellings x operand kinds {number, affine}'}] * 1
-    res.instances += [{'check': i} for i in range(min(n_checks, 2000))][:0]
+    res.instances += [{'sample_case': d} for d in SAMPLE_CASES[:6]]
     res.floor = 1
     if n_checks < 400:
         raise AnalysisError('R11 interpreted only %d checks' % n_checks)
